@@ -483,8 +483,16 @@ package graphql
 //@   ensures res0.Field == sel && res0.Selections == nil && res0.Deferrable == nil
 //@   nopanic
 //@   pure
-//@ trusted getOrCreateAndAppendField(c, name, alias, objectDefinition, creator) (f)
-//@   ensures f != nil
+//@ trusted dyn:creator() (cf)
+//@ func getOrCreateAndAppendField [C01]
+//@   requires c != nil
+//@   replay collectFieldsInterfaces.go.tmpl
+//@   ensures res0 != nil
+//@   ensures calls("dyn:creator") <= 1
+// the scan moves past an entry only if that entry must not be merged with the new selection: an entry with the same
+// field name and response key whose parent definition is the same, has the same name, or is - like the new one -
+// an interface (one object can implement both) is returned, never duplicated
+//@   loop 1: step !(cf.Name == name && cf.Alias == alias && (cf.ObjectDefinition == objectDefinition || (cf.ObjectDefinition != nil && objectDefinition != nil && (cf.ObjectDefinition.Name == objectDefinition.Name || (cf.ObjectDefinition.Kind == ast.Interface && objectDefinition.Kind == ast.Interface)))))
 //@ trusted (*github.com/vektah/gqlparser/v2/ast.Value).Value(vars) (v, err)
 //@   pure
 // @defer: `if` and `label` are read tolerantly (a null or non-boolean `if` means "not decided here", never a
